@@ -41,8 +41,9 @@ func c16CopyOne(chunked, shortWrite bool, failRead, failWrite int) {
 	D.shortWrite, D.failWrite = shortWrite, failWrite
 	infoSize := vp.I64("info.size")
 	info := c16SizeInfo{c16Info{sf}, infoSize}
-	vp.Unwind(max + calls + 4)
+	vp.Unwind(max + calls + 5)
 	vp.NoPanic()
+	vp.MaxLoop(max + calls + 2) // rounds <= read calls; write retries per round <= bytes read
 	err := copyOneFile(S, D, "f", info)
 	vp.AllowPanic()
 
@@ -94,6 +95,35 @@ func VP_C16_copy_one_readerr1()  { c16CopyOne(true, false, 1, -1) }
 func VP_C16_copy_one_readerr2()  { c16CopyOne(true, true, 2, -1) }
 func VP_C16_copy_one_writeerr0() { c16CopyOne(true, false, -1, 0) }
 func VP_C16_copy_one_writeerr1() { c16CopyOne(true, true, -1, 1) }
+
+// VP_C16_copy_one_big: the streaming path on a sparse all-zero source of arbitrary length
+// 0..2*32 KiB+9 (more than one 32 KiB buffer; the 64 MiB threshold is passed through info.Size()),
+// read in arbitrary pieces, written with full writes. Oracle: nil and destination length = source length.
+func VP_C16_copy_one_big() {
+	max := vp.Bound("biglen", 2*32768+9, 3*32768+9)
+	sf := c16BigFile("f", "src", max)
+	S := c16NewFS("S", c16Dir(".", sf))
+	D := c16NewFS("D", c16Dir("."))
+	S.chunked = vp.Thorough()
+	infoSize := vp.I64("info.size")
+	vp.Assume(infoSize > 64<<20)
+	info := c16SizeInfo{c16Info{sf}, infoSize}
+	vp.Unwind(10)
+	vp.NoPanic()
+	vp.MaxLoop(7)
+	err := copyOneFile(S, D, "f", info)
+	vp.AllowPanic()
+	vp.Assert(err == nil, "streaming copy of a readable file into a writable destination succeeds")
+	df := D.root.child("f")
+	vp.Assert(df != nil, "destination file created")
+	if df != nil {
+		vp.Assert(df.size == sf.size, "destination length equals source length")
+		if sf.size > 32768 {
+			vp.Cover("file longer than the copy buffer streamed")
+		}
+	}
+	vp.Cover("done")
+}
 
 // c16Under: the writer behind a LimitedWriter. It accepts a solver-chosen prefix of each buffer and,
 // as io.Writer demands, reports an error whenever it accepted less than it was given.
